@@ -1,279 +1,765 @@
 import PlumVerif.Model.Entry
 import PlumVerif.Spec.C10
 /-
-Helper lemmas for C10: the four-phase invariant of the locked machine.
+Helper lemmas for C10: the shapes of a step of the locked machine and its invariant
+(mutual exclusion through the one lock, one entry per address, objects never shared between
+addresses).
 -/
 namespace PlumVerif.Entry
 
-@[simp] theorem upd_same (f : Nat → PC) (i : Nat) (v : PC) : upd f i v i = v := by simp [upd]
-theorem upd_other (f : Nat → PC) (i j : Nat) (v : PC) (h : j ≠ i) : upd f i v j = f j := by simp [upd, h]
+@[simp] theorem upd_same {α : Type} (f : Nat → α) (i : Nat) (v : α) : upd f i v i = v := by simp [upd]
+theorem upd_other {α : Type} (f : Nat → α) (i j : Nat) (v : α) (h : j ≠ i) : upd f i v j = f j := by simp [upd, h]
 
-/-- a caller that holds nothing yet -/
-def Quiet (p : PC) : Prop := p = .start ∨ p = .gwait
-/-- a caller in the published phase: holds nothing yet, or holds device 0 -/
-def Settled (p : PC) : Prop := p = .start ∨ p = .gwait ∨ p = .done 0 ∨ p = .got 0
+/-- in `creating` or `publishing`: inside the lock -/
+def Inside (p : PC) : Prop := p = .creating ∨ ∃ d, p = .publishing d
 
-theorem Quiet.settled {p : PC} (h : Quiet p) : Settled p := by
-  rcases h with h | h
-  · exact .inl h
-  · exact .inr (.inl h)
+/-- everything a step of the locked machine can be -/
+inductive Shape (who : Nat → Caller) (cr : Nat → Bool) (s : St) (i : Nat) : St → Prop
+  | stutter : Shape who cr s i s
+  | finish (d : Nat) (hpc : s.pc i = .start) (hk : (who i).kind = .entry) (hl : s.lock = none)
+      (hp : s.published (who i).addr = some d) : Shape who cr s i (finish s i d)
+  | acquire (hpc : s.pc i = .start) (hk : (who i).kind = .entry) (hl : s.lock = none)
+      (hp : s.published (who i).addr = none) :
+      Shape who cr s i { s with pc := upd s.pc i .creating, lock := some i }
+  | gnow (d : Nat) (hpc : s.pc i = .start ∧ (who i).kind = .get ∨ s.pc i = .gwait)
+      (hp : s.published (who i).addr = some d) : Shape who cr s i { s with pc := upd s.pc i (.got d) }
+  | gpark (hpc : s.pc i = .start) (hk : (who i).kind = .get) (hp : s.published (who i).addr = none) :
+      Shape who cr s i { s with pc := upd s.pc i .gwait }
+  | build (hpc : s.pc i = .creating) (hc : cr (who i).addr = true) :
+      Shape who cr s i { s with pc := upd s.pc i (.publishing s.created), created := s.created + 1, setups := s.setups + 1, createdFor := upd s.createdFor (who i).addr (s.createdFor (who i).addr + 1), setupsFor := upd s.setupsFor (who i).addr (s.setupsFor (who i).addr + 1) }
+  | fail (hpc : s.pc i = .creating) (hc : cr (who i).addr = false) :
+      Shape who cr s i { s with pc := upd s.pc i .failed, lock := none }
+  | publish (d : Nat) (hpc : s.pc i = .publishing d) :
+      Shape who cr s i { s with pc := upd s.pc i (.done d), published := upd s.published (who i).addr (some d), dispatched := ((who i).addr, d) :: s.dispatched, lock := none, handled := (i, d) :: s.handled }
 
-/-- The whole system is always in one of four global phases (locked machine). -/
-inductive Phase (kind : Nat → Kind) (s : St) : Prop
-  | idle (hl : s.lock = none) (hc : s.created = 0) (hs : s.setups = 0) (hp : s.published = none)
-      (hd : s.dispatched = []) (hh : s.handled = []) (hpc : ∀ j, Quiet (s.pc j))
-  | creating (h : Nat) (hl : s.lock = some h) (hc : s.created = 0) (hs : s.setups = 0)
-      (hp : s.published = none) (hd : s.dispatched = []) (hh : s.handled = [])
-      (hk : kind h = .entry) (hh' : s.pc h = .creating) (hpc : ∀ j, j ≠ h → Quiet (s.pc j))
-  | publishing (h : Nat) (hl : s.lock = some h) (hc : s.created = 1) (hs : s.setups = 1)
-      (hp : s.published = none) (hd : s.dispatched = []) (hh : s.handled = [])
-      (hk : kind h = .entry) (hh' : s.pc h = .publishing 0) (hpc : ∀ j, j ≠ h → Quiet (s.pc j))
-  | published (hl : s.lock = none) (hc : s.created = 1) (hs : s.setups = 1)
-      (hp : s.published = some 0) (hd : s.dispatched = [0]) (hpc : ∀ j, Settled (s.pc j))
-      (hh : ∀ p ∈ s.handled, p.2 = 0 ∧ s.pc p.1 = .done 0 ∧ kind p.1 = .entry)
-      (hn : (s.handled.map (·.1)).Nodup)
-      (hdone : ∀ j, s.pc j = .done 0 → (j, 0) ∈ s.handled)
+theorem step_shape (who : Nat → Caller) (cr : Nat → Bool) (s : St) (i : Nat) :
+    Shape who cr s i (step true who cr s i) := by
+  unfold step
+  cases hpc : s.pc i with
+  | start =>
+    cases hk : (who i).kind with
+    | entry =>
+      cases hl : s.lock with
+      | some h => simpa [hl] using Shape.stutter
+      | none =>
+        cases hp : s.published (who i).addr with
+        | some d => simpa [hl, hp] using Shape.finish d hpc hk hl hp
+        | none => simpa [hl, hp] using Shape.acquire hpc hk hl hp
+    | get =>
+      cases hp : s.published (who i).addr with
+      | some d => simpa [hp] using Shape.gnow d (.inl ⟨hpc, hk⟩) hp
+      | none => simpa [hp] using Shape.gpark hpc hk hp
+  | creating =>
+    cases hc : cr (who i).addr with
+    | true => simpa [hc] using Shape.build hpc hc
+    | false => simpa [hc] using Shape.fail hpc hc
+  | publishing d => simpa using Shape.publish d hpc
+  | done d => exact .stutter
+  | failed => exact .stutter
+  | gwait =>
+    cases hp : s.published (who i).addr with
+    | some d => simpa [hp] using Shape.gnow d (.inr hpc) hp
+    | none => simpa [hp] using Shape.stutter
+  | got d => exact .stutter
 
-theorem phase_init (kind : Nat → Kind) : Phase kind init :=
-  .idle rfl rfl rfl rfl rfl rfl (fun _ => .inl rfl)
 
-theorem quiet_upd {f : Nat → PC} {i : Nat} {v : PC} (hv : Quiet v) (h : ∀ j, Quiet (f j)) :
-    ∀ j, Quiet (upd f i v j) := by
-  intro j
-  by_cases hj : j = i
-  · subst hj; simpa using hv
-  · rw [upd_other _ _ _ _ hj]; exact h j
+/-! ### the invariant of the locked machine -/
 
-/-- while some caller `h` holds the lock, another quiet caller either does nothing or (a
-get() caller) starts waiting -/
-theorem step_locked_other (kind : Nat → Kind) (s : St) (i h : Nat) (hl : s.lock = some h)
-    (hp : s.published = none) (hq : Quiet (s.pc i)) :
-    step true kind s i = s ∨ (kind i = .get ∧ step true kind s i = { s with pc := upd s.pc i .gwait }) := by
-  rcases hq with h1 | h1
-  · cases hki : kind i with
-    | entry => left; simp [step, h1, hki, hl]
-    | get => right; simp [step, h1, hki, hp]
-  · left; simp [step, h1, hp]
+structure Inv (who : Nat → Caller) (cr : Nat → Bool) (s : St) : Prop where
+  holder : ∀ j, Inside (s.pc j) → s.lock = some j
+  held : ∀ h, s.lock = some h → Inside (s.pc h) ∧ s.published (who h).addr = none
+  pubId : ∀ h d, s.pc h = .publishing d →
+    d + 1 = s.created ∧ s.createdFor (who h).addr = 1 ∧ cr (who h).addr = true
+  holds : ∀ j d, (s.pc j = .done d ∨ s.pc j = .got d) → s.published (who j).addr = some d
+  ids : ∀ a d, s.published a = some d →
+    d < s.created ∧ s.createdFor a = 1 ∧ cr a = true ∧ ∀ h d', s.pc h = .publishing d' → d ≠ d'
+  inj : ∀ a b d, s.published a = some d → s.published b = some d → a = b
+  zero : ∀ a, s.published a = none → (∀ h d, s.pc h = .publishing d → (who h).addr ≠ a) → s.createdFor a = 0
+  setups : ∀ a, s.setupsFor a = s.createdFor a
+  handledOk : ∀ p ∈ s.handled, s.pc p.1 = .done p.2 ∧ (who p.1).kind = .entry
+  handledNodup : (s.handled.map (·.1)).Nodup
+  doneIn : ∀ j d, s.pc j = .done d → (j, d) ∈ s.handled
+  dispOk : ∀ p ∈ s.dispatched, s.published p.1 = some p.2
+  dispNodup : (s.dispatched.map (·.1)).Nodup
+  failedOk : ∀ j, s.pc j = .failed → cr (who j).addr = false
+  kindE : ∀ j, (Inside (s.pc j) ∨ (∃ d, s.pc j = .done d) ∨ s.pc j = .failed) → (who j).kind = .entry
+  kindG : ∀ j, (s.pc j = .gwait ∨ ∃ d, s.pc j = .got d) → (who j).kind = .get
+  pubDisp : ∀ a d, s.published a = some d → (a, d) ∈ s.dispatched
+  setupsTot : s.setups = s.created
+  cnt0 : (∀ h d, s.pc h ≠ .publishing d) → s.created = s.dispatched.length
+  cnt1 : ∀ h d, s.pc h = .publishing d → s.created = s.dispatched.length + 1
 
-theorem phase_step (kind : Nat → Kind) (s : St) (i : Nat) (h : Phase kind s) :
-    Phase kind (step true kind s i) := by
-  cases h with
-  | idle hl hc hs hp hd hh hpc =>
-    rcases hpc i with hi | hi
-    · cases hk : kind i with
-      | entry =>
-        have : step true kind s i = { s with pc := upd s.pc i .creating, lock := some i } := by
-          simp [step, hi, hk, hl, hp]
-        rw [this]
-        exact .creating i rfl hc hs hp hd hh hk (by simp)
-          (fun j hj => by simpa [upd_other _ _ _ _ hj] using hpc j)
-      | get =>
-        have : step true kind s i = { s with pc := upd s.pc i .gwait } := by
-          simp [step, hi, hk, hp]
-        rw [this]
-        exact .idle hl hc hs hp hd hh (quiet_upd (.inr rfl) hpc)
-    · have : step true kind s i = s := by simp [step, hi, hp]
-      rw [this]; exact .idle hl hc hs hp hd hh hpc
-  | creating h hl hc hs hp hd hh hk hh' hpc =>
-    by_cases hi : i = h
-    · subst hi
-      have : step true kind s i = { s with pc := upd s.pc i (.publishing s.created), created := s.created + 1, setups := s.setups + 1 } := by
-        simp [step, hh']
-      rw [this]
-      exact .publishing i hl (by simp [hc]) (by simp [hs]) hp hd hh hk (by simp [hc])
-        (fun j hj => by simpa [upd_other _ _ _ _ hj] using hpc j hj)
-    · rcases step_locked_other kind s i h hl hp (hpc i hi) with e | ⟨_, e⟩
-      · rw [e]; exact .creating h hl hc hs hp hd hh hk hh' hpc
-      · rw [e]
-        refine .creating h hl hc hs hp hd hh hk ?_ ?_
-        · simpa [upd_other _ _ _ _ (Ne.symm hi)] using hh'
-        · intro j hj
-          by_cases hji : j = i
-          · subst hji; simp [Quiet]
-          · simpa [upd_other _ _ _ _ hji] using hpc j hj
-  | publishing h hl hc hs hp hd hh hk hh' hpc =>
-    by_cases hi : i = h
-    · subst hi
-      have : step true kind s i = { s with pc := upd s.pc i (.done 0), published := some 0, dispatched := 0 :: s.dispatched, lock := none, handled := (i, 0) :: s.handled } := by
-        simp [step, hh']
-      rw [this]
-      refine .published rfl hc hs rfl (by simp [hd]) ?_ ?_ ?_ ?_
-      · intro j
-        by_cases hj : j = i
-        · subst hj; simp [Settled]
-        · simpa [upd_other _ _ _ _ hj] using (hpc j hj).settled
-      · intro p hp'
-        simp only [hh, List.mem_cons, List.not_mem_nil, or_false] at hp'
-        subst hp'; simp [hk]
-      · simp [hh]
-      · intro j hj
-        by_cases hji : j = i
-        · subst hji; simp
-        · simp only [upd_other _ _ _ _ hji] at hj
-          rcases hpc j hji with h1 | h1 <;> simp [h1] at hj
-    · rcases step_locked_other kind s i h hl hp (hpc i hi) with e | ⟨_, e⟩
-      · rw [e]; exact .publishing h hl hc hs hp hd hh hk hh' hpc
-      · rw [e]
-        refine .publishing h hl hc hs hp hd hh hk ?_ ?_
-        · simpa [upd_other _ _ _ _ (Ne.symm hi)] using hh'
-        · intro j hj
-          by_cases hji : j = i
-          · subst hji; simp [Quiet]
-          · simpa [upd_other _ _ _ _ hji] using hpc j hj
-  | published hl hc hs hp hd hpc hh hn hdone =>
-    -- every settled caller other than i keeps its pc
-    have keep : ∀ v, Settled v → ∀ j, Settled (upd s.pc i v j) := by
-      intro v hv j
-      by_cases hj : j = i
-      · subst hj; simpa using hv
-      · rw [upd_other _ _ _ _ hj]; exact hpc j
-    rcases hpc i with hi | hi | hi | hi
-    · cases hk : kind i with
-      | entry =>
-        have : step true kind s i = finish s i 0 := by simp [step, hi, hk, hl, hp]
-        rw [this]
-        have hni : i ∉ s.handled.map (·.1) := by
-          intro hmem
-          obtain ⟨p, hp1, hp2⟩ := List.mem_map.mp hmem
-          have := (hh p hp1).2.1
-          rw [hp2, hi] at this; cases this
-        refine .published hl hc hs hp hd (keep _ (.inr (.inr (.inl rfl)))) ?_ ?_ ?_
-        · intro p hp'
-          simp only [finish, List.mem_cons] at hp'
-          rcases hp' with rfl | hp'
-          · simp [finish, hk]
-          · obtain ⟨h1, h2, h3⟩ := hh p hp'
-            refine ⟨h1, ?_, h3⟩
-            have : p.1 ≠ i := by
-              intro e; apply hni; exact List.mem_map.mpr ⟨p, hp', e⟩
-            simpa [finish, upd_other _ _ _ _ this] using h2
-        · simpa [finish, List.nodup_cons] using ⟨fun x hx => hni (List.mem_map.mpr ⟨(i, x), hx, rfl⟩), hn⟩
-        · intro j hj
-          by_cases hji : j = i
-          · subst hji; simp [finish]
-          · simp only [finish, upd_other _ _ _ _ hji] at hj
-            simp only [finish, List.mem_cons]
-            exact .inr (hdone j hj)
-      | get =>
-        have : step true kind s i = { s with pc := upd s.pc i (.got 0) } := by
-          simp [step, hi, hk, hp]
-        rw [this]
-        refine .published hl hc hs hp hd (keep _ (.inr (.inr (.inr rfl)))) ?_ hn ?_
-        · intro p hp'
-          obtain ⟨h1, h2, h3⟩ := hh p hp'
-          refine ⟨h1, ?_, h3⟩
-          have : p.1 ≠ i := by intro e; rw [e, hi] at h2; cases h2
-          simpa [upd_other _ _ _ _ this] using h2
-        · intro j hj
-          by_cases hji : j = i
-          · subst hji; simp at hj
-          · simp only [upd_other _ _ _ _ hji] at hj; exact hdone j hj
-    · have : step true kind s i = { s with pc := upd s.pc i (.got 0) } := by
-        simp [step, hi, hp]
-      rw [this]
-      refine .published hl hc hs hp hd (keep _ (.inr (.inr (.inr rfl)))) ?_ hn ?_
-      · intro p hp'
-        obtain ⟨h1, h2, h3⟩ := hh p hp'
-        refine ⟨h1, ?_, h3⟩
-        have : p.1 ≠ i := by intro e; rw [e, hi] at h2; cases h2
-        simpa [upd_other _ _ _ _ this] using h2
-      · intro j hj
-        by_cases hji : j = i
-        · subst hji; simp at hj
-        · simp only [upd_other _ _ _ _ hji] at hj; exact hdone j hj
-    · have : step true kind s i = s := by simp [step, hi]
-      rw [this]; exact .published hl hc hs hp hd hpc hh hn hdone
-    · have : step true kind s i = s := by simp [step, hi]
-      rw [this]; exact .published hl hc hs hp hd hpc hh hn hdone
+theorem inv_init (who : Nat → Caller) (cr : Nat → Bool) : Inv who cr init := by
+  refine ⟨?_, ?_, ?_, ?_, ?_, ?_, ?_, ?_, ?_, ?_, ?_, ?_, ?_, ?_, ?_, ?_, ?_, ?_, ?_, ?_⟩ <;> simp [init, Inside]
 
-theorem phase_run (kind : Nat → Kind) (s : St) (is : List Nat) (h : Phase kind s) :
-    Phase kind (run true kind s is) := by
+/-- nobody is inside the lock when it is free -/
+theorem Inv.free {who cr s} (h : Inv who cr s) (hl : s.lock = none) (j : Nat) : ¬ Inside (s.pc j) := by
+  intro hj; have := h.holder j hj; rw [hl] at this; cases this
+
+/-- only the holder is inside the lock -/
+theorem Inv.only {who cr s} (h : Inv who cr s) {i j : Nat} (hi : Inside (s.pc i)) (hj : Inside (s.pc j)) : j = i := by
+  have a := h.holder i hi; have b := h.holder j hj; rw [a] at b; cases b; rfl
+
+/-- a step that only moves caller `i` from outside the lock to a state outside the lock that
+holds nothing new except possibly `p'` (described by the arguments) -/
+theorem inv_move {who cr} {s : St} (h : Inv who cr s) (i : Nat) (p' : PC)
+    (hout : ¬ Inside (s.pc i)) (hnd : ∀ d, s.pc i ≠ .done d) (hout' : ¬ Inside p') (hnd' : ∀ d, p' ≠ .done d)
+    (hgot : ∀ d, p' = .got d → s.published (who i).addr = some d)
+    (hf : p' = .failed → cr (who i).addr = false)
+    (hkE : p' = .failed → (who i).kind = .entry)
+    (hkG : (p' = .gwait ∨ ∃ d, p' = .got d) → (who i).kind = .get) :
+    Inv who cr { s with pc := upd s.pc i p' } := by
+  have pcj : ∀ j, j ≠ i → upd s.pc i p' j = s.pc j := fun j hj => upd_other _ _ _ _ hj
+  refine ⟨?_, ?_, ?_, ?_, ?_, h.inj, ?_, h.setups, ?_, h.handledNodup, ?_, h.dispOk, h.dispNodup, ?_, ?_, ?_, h.pubDisp, h.setupsTot, ?_, ?_⟩
+  · intro j hj
+    by_cases e : j = i
+    · subst e; simp only [upd_same] at hj; exact absurd hj hout'
+    · simp only [pcj j e] at hj; exact h.holder j hj
+  · intro k hk
+    have := h.held k hk
+    have e : k ≠ i := by intro e; subst e; exact hout this.1
+    simpa [pcj k e] using this
+  · intro k d hk
+    by_cases e : k = i
+    · subst e; simp only [upd_same] at hk; exact absurd (.inr ⟨d, hk⟩) hout'
+    · simp only [pcj k e] at hk; exact h.pubId k d hk
+  · intro j d hj
+    by_cases e : j = i
+    · subst e; simp only [upd_same] at hj
+      rcases hj with hj | hj
+      · exact absurd hj (hnd' d)
+      · exact hgot d hj
+    · simp only [pcj j e] at hj; exact h.holds j d hj
+  · intro a d ha
+    obtain ⟨h1, h2, h3, h4⟩ := h.ids a d ha
+    refine ⟨h1, h2, h3, fun k d' hk => ?_⟩
+    by_cases e : k = i
+    · subst e; simp only [upd_same] at hk; exact absurd (.inr ⟨d', hk⟩) hout'
+    · simp only [pcj k e] at hk; exact h4 k d' hk
+  · intro a ha hno
+    refine h.zero a ha (fun k d hk => ?_)
+    have e : k ≠ i := by intro e; subst e; exact hout (.inr ⟨d, hk⟩)
+    exact hno k d (by simpa [pcj k e] using hk)
+  · intro p hp
+    have := h.handledOk p hp
+    have e : p.1 ≠ i := by intro e; rw [e] at this; exact hnd _ this.1
+    simpa [pcj p.1 e] using this
+  · intro j d hj
+    by_cases e : j = i
+    · subst e; simp only [upd_same] at hj; exact absurd hj (hnd' d)
+    · simp only [pcj j e] at hj; exact h.doneIn j d hj
+  · intro j hj
+    by_cases e : j = i
+    · subst e; simp only [upd_same] at hj; exact hf hj
+    · simp only [pcj j e] at hj; exact h.failedOk j hj
+  · intro j hj
+    by_cases e : j = i
+    · subst e; simp only [upd_same] at hj
+      rcases hj with hj | ⟨d, hj⟩ | hj
+      · exact absurd hj hout'
+      · exact absurd hj (hnd' d)
+      · exact hkE hj
+    · simp only [pcj j e] at hj; exact h.kindE j hj
+  · intro j hj
+    by_cases e : j = i
+    · subst e; simp only [upd_same] at hj; exact hkG hj
+    · simp only [pcj j e] at hj; exact h.kindG j hj
+  · intro hno
+    refine h.cnt0 (fun k d hk => ?_)
+    by_cases e : k = i
+    · subst e; exact hout (.inr ⟨d, hk⟩)
+    · exact hno k d (by simpa [pcj k e] using hk)
+  · intro k d hk
+    by_cases e : k = i
+    · subst e; simp only [upd_same] at hk; exact absurd (.inr ⟨d, hk⟩) hout'
+    · simp only [pcj k e] at hk; exact h.cnt1 k d hk
+
+theorem inside_start : ¬ Inside PC.start := by simp [Inside]
+theorem inside_creating : Inside PC.creating := .inl rfl
+theorem inside_publishing (d : Nat) : Inside (PC.publishing d) := .inr ⟨d, rfl⟩
+
+theorem inv_finish {who cr} {s : St} (h : Inv who cr s) (i d : Nat) (hpc : s.pc i = .start)
+    (hk : (who i).kind = .entry) (hp : s.published (who i).addr = some d) : Inv who cr (finish s i d) := by
+  have pcj : ∀ j, j ≠ i → upd s.pc i (.done d) j = s.pc j := fun j hj => upd_other _ _ _ _ hj
+  have hni : i ∉ s.handled.map (·.1) := by
+    intro hm
+    obtain ⟨p, hp1, hp2⟩ := List.mem_map.mp hm
+    have := (h.handledOk p hp1).1
+    rw [hp2, hpc] at this; cases this
+  unfold finish
+  refine ⟨?_, ?_, ?_, ?_, ?_, h.inj, ?_, h.setups, ?_, ?_, ?_, h.dispOk, h.dispNodup, ?_, ?_, ?_, h.pubDisp, h.setupsTot, ?_, ?_⟩
+  · intro j hj
+    by_cases e : j = i
+    · subst e; simp [Inside] at hj
+    · simp only [pcj j e] at hj; exact h.holder j hj
+  · intro k hk'
+    have := h.held k hk'
+    have e : k ≠ i := by intro e; subst e; rw [hpc] at this; exact inside_start this.1
+    simpa [pcj k e] using this
+  · intro k d' hk'
+    by_cases e : k = i
+    · subst e; simp at hk'
+    · simp only [pcj k e] at hk'; exact h.pubId k d' hk'
+  · intro j d' hj
+    by_cases e : j = i
+    · subst e; simp only [upd_same] at hj
+      rcases hj with hj | hj
+      · cases hj; exact hp
+      · cases hj
+    · simp only [pcj j e] at hj; exact h.holds j d' hj
+  · intro a d' ha
+    obtain ⟨h1, h2, h3, h4⟩ := h.ids a d' ha
+    refine ⟨h1, h2, h3, fun k d'' hk' => ?_⟩
+    by_cases e : k = i
+    · subst e; simp at hk'
+    · simp only [pcj k e] at hk'; exact h4 k d'' hk'
+  · intro a ha hno
+    refine h.zero a ha (fun k d' hk' => ?_)
+    have e : k ≠ i := by intro e; subst e; rw [hpc] at hk'; cases hk'
+    exact hno k d' (by simpa [pcj k e] using hk')
+  · intro p hp'
+    rcases List.mem_cons.mp hp' with rfl | hp'
+    · simp [hk]
+    · have := h.handledOk p hp'
+      have e : p.1 ≠ i := by intro e; exact hni (List.mem_map.mpr ⟨p, hp', e⟩)
+      simpa [pcj p.1 e] using this
+  · simpa [List.nodup_cons] using ⟨fun x hx => hni (List.mem_map.mpr ⟨(i, x), hx, rfl⟩), h.handledNodup⟩
+  · intro j d' hj
+    by_cases e : j = i
+    · subst e; simp only [upd_same] at hj; cases hj; exact List.mem_cons_self ..
+    · simp only [pcj j e] at hj; exact List.mem_cons_of_mem _ (h.doneIn j d' hj)
+  · intro j hj
+    by_cases e : j = i
+    · subst e; simp at hj
+    · simp only [pcj j e] at hj; exact h.failedOk j hj
+  · intro j hj
+    by_cases e : j = i
+    · subst e; exact hk
+    · simp only [pcj j e] at hj; exact h.kindE j hj
+  · intro j hj
+    by_cases e : j = i
+    · subst e; simp at hj
+    · simp only [pcj j e] at hj; exact h.kindG j hj
+  · intro hno
+    refine h.cnt0 (fun k d hq => ?_)
+    by_cases e : k = i
+    · rw [e, hpc] at hq; cases hq
+    · exact hno k d (by simpa [pcj k e] using hq)
+  · intro k d hq
+    by_cases e : k = i
+    · rw [e] at hq; simp at hq
+    · simp only [pcj k e] at hq; exact h.cnt1 k d hq
+
+theorem inv_acquire {who cr} {s : St} (h : Inv who cr s) (i : Nat) (hpc : s.pc i = .start)
+    (hk : (who i).kind = .entry) (hl : s.lock = none) (hp : s.published (who i).addr = none) :
+    Inv who cr { s with pc := upd s.pc i .creating, lock := some i } := by
+  have pcj : ∀ j, j ≠ i → upd s.pc i .creating j = s.pc j := fun j hj => upd_other _ _ _ _ hj
+  have free := h.free hl
+  refine ⟨?_, ?_, ?_, ?_, ?_, h.inj, ?_, h.setups, ?_, h.handledNodup, ?_, h.dispOk, h.dispNodup, ?_, ?_, ?_, h.pubDisp, h.setupsTot, ?_, ?_⟩
+  · intro j hj
+    by_cases e : j = i
+    · subst e; rfl
+    · simp only [pcj j e] at hj; exact absurd hj (free j)
+  · intro k hk'
+    simp only [Option.some.injEq] at hk'; subst hk'
+    exact ⟨by simp [Inside], hp⟩
+  · intro k d hk'
+    by_cases e : k = i
+    · subst e; simp at hk'
+    · simp only [pcj k e] at hk'; exact absurd (inside_publishing d) (hk' ▸ free k)
+  · intro j d hj
+    by_cases e : j = i
+    · subst e; simp at hj
+    · simp only [pcj j e] at hj; exact h.holds j d hj
+  · intro a d ha
+    obtain ⟨h1, h2, h3, _⟩ := h.ids a d ha
+    refine ⟨h1, h2, h3, fun k d' hk' => ?_⟩
+    by_cases e : k = i
+    · subst e; simp at hk'
+    · simp only [pcj k e] at hk'; exact absurd (inside_publishing d') (hk' ▸ free k)
+  · intro a ha _
+    exact h.zero a ha (fun k d hk' => absurd (inside_publishing d) (hk' ▸ free k))
+  · intro p hp'
+    have := h.handledOk p hp'
+    have e : p.1 ≠ i := by intro e; rw [e, hpc] at this; cases this.1
+    simpa [pcj p.1 e] using this
+  · intro j d hj
+    by_cases e : j = i
+    · subst e; simp at hj
+    · simp only [pcj j e] at hj; exact h.doneIn j d hj
+  · intro j hj
+    by_cases e : j = i
+    · subst e; simp at hj
+    · simp only [pcj j e] at hj; exact h.failedOk j hj
+  · intro j hj
+    by_cases e : j = i
+    · subst e; exact hk
+    · simp only [pcj j e] at hj; exact h.kindE j hj
+  · intro j hj
+    by_cases e : j = i
+    · subst e; simp at hj
+    · simp only [pcj j e] at hj; exact h.kindG j hj
+  · intro hno
+    refine h.cnt0 (fun k d hq => ?_)
+    by_cases e : k = i
+    · rw [e, hpc] at hq; cases hq
+    · exact hno k d (by simpa [pcj k e] using hq)
+  · intro k d hq
+    by_cases e : k = i
+    · rw [e] at hq; simp at hq
+    · simp only [pcj k e] at hq; exact h.cnt1 k d hq
+
+theorem inv_build {who cr} {s : St} (h : Inv who cr s) (i : Nat) (hpc : s.pc i = .creating)
+    (hc : cr (who i).addr = true) :
+    Inv who cr { s with pc := upd s.pc i (.publishing s.created), created := s.created + 1, setups := s.setups + 1, createdFor := upd s.createdFor (who i).addr (s.createdFor (who i).addr + 1), setupsFor := upd s.setupsFor (who i).addr (s.setupsFor (who i).addr + 1) } := by
+  have pcj : ∀ j, j ≠ i → upd s.pc i (.publishing s.created) j = s.pc j := fun j hj => upd_other _ _ _ _ hj
+  have hin : Inside (s.pc i) := by rw [hpc]; exact inside_creating
+  have hl : s.lock = some i := h.holder i hin
+  have hpn : s.published (who i).addr = none := (h.held i hl).2
+  have others : ∀ j, j ≠ i → ¬ Inside (s.pc j) := fun j e hj => e (h.only hin hj)
+  have nopub : ∀ k d, s.pc k = .publishing d → False := by
+    intro k d hk
+    by_cases e : k = i
+    · subst e; rw [hpc] at hk; cases hk
+    · exact others k e (hk ▸ inside_publishing d)
+  have hz : s.createdFor (who i).addr = 0 := h.zero _ hpn (fun k d hk => (nopub k d hk).elim)
+  refine ⟨?_, ?_, ?_, ?_, ?_, h.inj, ?_, ?_, ?_, h.handledNodup, ?_, h.dispOk, h.dispNodup, ?_, ?_, ?_, h.pubDisp, by simp [h.setupsTot], ?_, ?_⟩
+  · intro j hj
+    by_cases e : j = i
+    · subst e; exact hl
+    · simp only [pcj j e] at hj; exact absurd hj (others j e)
+  · intro k hk
+    have : k = i := by rw [hl] at hk; cases hk; rfl
+    subst this
+    exact ⟨by simp [Inside], hpn⟩
+  · intro k d hk
+    by_cases e : k = i
+    · subst e; simp only [upd_same, PC.publishing.injEq] at hk; subst hk
+      exact ⟨rfl, by simp [hz], hc⟩
+    · simp only [pcj k e] at hk; exact (nopub k d hk).elim
+  · intro j d hj
+    by_cases e : j = i
+    · subst e; simp at hj
+    · simp only [pcj j e] at hj; exact h.holds j d hj
+  · intro a d ha
+    obtain ⟨h1, h2, h3, _⟩ := h.ids a d ha
+    have hne : a ≠ (who i).addr := by intro e; rw [e, hpn] at ha; cases ha
+    refine ⟨by simp; omega, by simp [upd_other _ _ _ _ hne, h2], h3, fun k d' hk => ?_⟩
+    by_cases e : k = i
+    · subst e; simp only [upd_same, PC.publishing.injEq] at hk; omega
+    · simp only [pcj k e] at hk; exact (nopub k d' hk).elim
+  · intro a ha hno
+    have hne : a ≠ (who i).addr := by intro e; exact hno i s.created (by simp) e.symm
+    simp only [upd_other _ _ _ _ hne]
+    exact h.zero a ha (fun k d hk => (nopub k d hk).elim)
+  · intro a
+    by_cases e : a = (who i).addr
+    · subst e; simp [h.setups]
+    · simp [upd_other _ _ _ _ e, h.setups]
+  · intro p hp'
+    have := h.handledOk p hp'
+    have e : p.1 ≠ i := by intro e; rw [e, hpc] at this; cases this.1
+    simpa [pcj p.1 e] using this
+  · intro j d hj
+    by_cases e : j = i
+    · subst e; simp at hj
+    · simp only [pcj j e] at hj; exact h.doneIn j d hj
+  · intro j hj
+    by_cases e : j = i
+    · subst e; simp at hj
+    · simp only [pcj j e] at hj; exact h.failedOk j hj
+  · intro j hj
+    by_cases e : j = i
+    · subst e; exact h.kindE j (.inl hin)
+    · simp only [pcj j e] at hj; exact h.kindE j hj
+  · intro j hj
+    by_cases e : j = i
+    · subst e; simp at hj
+    · simp only [pcj j e] at hj; exact h.kindG j hj
+  · intro hno
+    exact absurd (by simp) (hno i s.created)
+  · intro k d _
+    have := h.cnt0 (fun k d hk => nopub k d hk)
+    simp [this]
+
+theorem inv_fail {who cr} {s : St} (h : Inv who cr s) (i : Nat) (hpc : s.pc i = .creating)
+    (hc : cr (who i).addr = false) : Inv who cr { s with pc := upd s.pc i .failed, lock := none } := by
+  have pcj : ∀ j, j ≠ i → upd s.pc i .failed j = s.pc j := fun j hj => upd_other _ _ _ _ hj
+  have hin : Inside (s.pc i) := by rw [hpc]; exact inside_creating
+  have others : ∀ j, j ≠ i → ¬ Inside (s.pc j) := fun j e hj => e (h.only hin hj)
+  have nopub : ∀ k d, s.pc k = .publishing d → False := by
+    intro k d hk
+    by_cases e : k = i
+    · subst e; rw [hpc] at hk; cases hk
+    · exact others k e (hk ▸ inside_publishing d)
+  refine ⟨?_, ?_, ?_, ?_, ?_, h.inj, ?_, h.setups, ?_, h.handledNodup, ?_, h.dispOk, h.dispNodup, ?_, ?_, ?_, h.pubDisp, h.setupsTot, ?_, ?_⟩
+  · intro j hj
+    by_cases e : j = i
+    · subst e; simp [Inside] at hj
+    · simp only [pcj j e] at hj; exact absurd hj (others j e)
+  · intro k hk; cases hk
+  · intro k d hk
+    by_cases e : k = i
+    · subst e; simp at hk
+    · simp only [pcj k e] at hk; exact (nopub k d hk).elim
+  · intro j d hj
+    by_cases e : j = i
+    · subst e; simp at hj
+    · simp only [pcj j e] at hj; exact h.holds j d hj
+  · intro a d ha
+    obtain ⟨h1, h2, h3, _⟩ := h.ids a d ha
+    refine ⟨h1, h2, h3, fun k d' hk => ?_⟩
+    by_cases e : k = i
+    · subst e; simp at hk
+    · simp only [pcj k e] at hk; exact (nopub k d' hk).elim
+  · intro a ha _
+    exact h.zero a ha (fun k d hk => (nopub k d hk).elim)
+  · intro p hp'
+    have := h.handledOk p hp'
+    have e : p.1 ≠ i := by intro e; rw [e, hpc] at this; cases this.1
+    simpa [pcj p.1 e] using this
+  · intro j d hj
+    by_cases e : j = i
+    · subst e; simp at hj
+    · simp only [pcj j e] at hj; exact h.doneIn j d hj
+  · intro j hj
+    by_cases e : j = i
+    · subst e; exact hc
+    · simp only [pcj j e] at hj; exact h.failedOk j hj
+  · intro j hj
+    by_cases e : j = i
+    · subst e; exact h.kindE j (.inl hin)
+    · simp only [pcj j e] at hj; exact h.kindE j hj
+  · intro j hj
+    by_cases e : j = i
+    · subst e; simp at hj
+    · simp only [pcj j e] at hj; exact h.kindG j hj
+  · intro hno
+    refine h.cnt0 (fun k d hq => ?_)
+    by_cases e : k = i
+    · rw [e, hpc] at hq; cases hq
+    · exact hno k d (by simpa [pcj k e] using hq)
+  · intro k d hq
+    by_cases e : k = i
+    · rw [e] at hq; simp at hq
+    · simp only [pcj k e] at hq; exact h.cnt1 k d hq
+
+theorem inv_publish {who cr} {s : St} (h : Inv who cr s) (i d : Nat) (hpc : s.pc i = .publishing d) :
+    Inv who cr { s with pc := upd s.pc i (.done d), published := upd s.published (who i).addr (some d), dispatched := ((who i).addr, d) :: s.dispatched, lock := none, handled := (i, d) :: s.handled } := by
+  have pcj : ∀ j, j ≠ i → upd s.pc i (.done d) j = s.pc j := fun j hj => upd_other _ _ _ _ hj
+  have hin : Inside (s.pc i) := by rw [hpc]; exact inside_publishing d
+  have hl : s.lock = some i := h.holder i hin
+  have hpn : s.published (who i).addr = none := (h.held i hl).2
+  obtain ⟨hd1, hd2, hd3⟩ := h.pubId i d hpc
+  have others : ∀ j, j ≠ i → ¬ Inside (s.pc j) := fun j e hj => e (h.only hin hj)
+  have pubne : ∀ a, a ≠ (who i).addr → upd s.published (who i).addr (some d) a = s.published a :=
+    fun a e => upd_other _ _ _ _ e
+  have hni : i ∉ s.handled.map (·.1) := by
+    intro hm
+    obtain ⟨p, hp1, hp2⟩ := List.mem_map.mp hm
+    have := (h.handledOk p hp1).1
+    rw [hp2, hpc] at this; cases this
+  have hna : (who i).addr ∉ s.dispatched.map (·.1) := by
+    intro hm
+    obtain ⟨p, hp1, hp2⟩ := List.mem_map.mp hm
+    have := h.dispOk p hp1
+    rw [hp2, hpn] at this; cases this
+  refine ⟨?_, ?_, ?_, ?_, ?_, ?_, ?_, h.setups, ?_, ?_, ?_, ?_, ?_, ?_, ?_, ?_, ?_, h.setupsTot, ?_, ?_⟩
+  · intro j hj
+    by_cases e : j = i
+    · subst e; simp [Inside] at hj
+    · simp only [pcj j e] at hj; exact absurd hj (others j e)
+  · intro k hk; cases hk
+  · intro k d' hk
+    by_cases e : k = i
+    · subst e; simp at hk
+    · simp only [pcj k e] at hk; exact absurd (hk ▸ inside_publishing d') (others k e)
+  · intro j d' hj
+    by_cases e : j = i
+    · subst e; simp only [upd_same] at hj
+      rcases hj with hj | hj
+      · cases hj; simp
+      · cases hj
+    · simp only [pcj j e] at hj
+      have := h.holds j d' hj
+      have hne : (who j).addr ≠ (who i).addr := by intro e'; rw [e', hpn] at this; cases this
+      simpa [pubne _ hne] using this
+  · intro a d' ha
+    by_cases e : a = (who i).addr
+    · subst e; simp only [upd_same, Option.some.injEq] at ha; subst ha
+      refine ⟨by show d < s.created; omega, hd2, hd3, fun k d'' hk => ?_⟩
+      by_cases e' : k = i
+      · subst e'; simp at hk
+      · simp only [pcj k e'] at hk; exact absurd (hk ▸ inside_publishing d'') (others k e')
+    · simp only [pubne a e] at ha
+      obtain ⟨h1, h2, h3, _⟩ := h.ids a d' ha
+      refine ⟨h1, h2, h3, fun k d'' hk => ?_⟩
+      by_cases e' : k = i
+      · subst e'; simp at hk
+      · simp only [pcj k e'] at hk; exact absurd (hk ▸ inside_publishing d'') (others k e')
+  · intro a b d' ha hb
+    by_cases ea : a = (who i).addr <;> by_cases eb : b = (who i).addr
+    · rw [ea, eb]
+    · subst ea; simp only [upd_same, Option.some.injEq] at ha; subst ha
+      simp only [pubne b eb] at hb
+      exact absurd rfl ((h.ids b d hb).2.2.2 i d hpc)
+    · subst eb; simp only [upd_same, Option.some.injEq] at hb; subst hb
+      simp only [pubne a ea] at ha
+      exact absurd rfl ((h.ids a d ha).2.2.2 i d hpc)
+    · simp only [pubne a ea] at ha; simp only [pubne b eb] at hb; exact h.inj a b d' ha hb
+  · intro a ha _
+    have e : a ≠ (who i).addr := by intro e; subst e; simp at ha
+    simp only [pubne a e] at ha
+    refine h.zero a ha (fun k d' hk => ?_)
+    by_cases e' : k = i
+    · subst e'; exact fun e'' => e e''.symm
+    · exact absurd (hk ▸ inside_publishing d') (others k e')
+  · intro p hp'
+    rcases List.mem_cons.mp hp' with rfl | hp'
+    · exact ⟨by simp, h.kindE i (.inl hin)⟩
+    · have := h.handledOk p hp'
+      have e : p.1 ≠ i := by intro e; exact hni (List.mem_map.mpr ⟨p, hp', e⟩)
+      simpa [pcj p.1 e] using this
+  · simpa [List.nodup_cons] using ⟨fun x hx => hni (List.mem_map.mpr ⟨(i, x), hx, rfl⟩), h.handledNodup⟩
+  · intro j d' hj
+    by_cases e : j = i
+    · subst e; simp only [upd_same] at hj; cases hj; exact List.mem_cons_self ..
+    · simp only [pcj j e] at hj; exact List.mem_cons_of_mem _ (h.doneIn j d' hj)
+  · intro p hp'
+    rcases List.mem_cons.mp hp' with rfl | hp'
+    · simp
+    · have := h.dispOk p hp'
+      have e : p.1 ≠ (who i).addr := by intro e; exact hna (List.mem_map.mpr ⟨p, hp', e⟩)
+      simpa [pubne p.1 e] using this
+  · simpa [List.nodup_cons] using ⟨fun x hx => hna (List.mem_map.mpr ⟨((who i).addr, x), hx, rfl⟩), h.dispNodup⟩
+  · intro j hj
+    by_cases e : j = i
+    · subst e; simp at hj
+    · simp only [pcj j e] at hj; exact h.failedOk j hj
+  · intro j hj
+    by_cases e : j = i
+    · subst e; exact h.kindE j (.inl hin)
+    · simp only [pcj j e] at hj; exact h.kindE j hj
+  · intro j hj
+    by_cases e : j = i
+    · subst e; simp at hj
+    · simp only [pcj j e] at hj; exact h.kindG j hj
+  · intro a d' ha
+    by_cases e : a = (who i).addr
+    · subst e; simp only [upd_same, Option.some.injEq] at ha; subst ha; exact List.mem_cons_self ..
+    · simp only [pubne a e] at ha; exact List.mem_cons_of_mem _ (h.pubDisp a d' ha)
+  · intro _
+    simpa using h.cnt1 i d hpc
+  · intro k d' hk
+    by_cases e : k = i
+    · subst e; simp at hk
+    · simp only [pcj k e] at hk; exact absurd (hk ▸ inside_publishing d') (others k e)
+
+theorem inv_step (who : Nat → Caller) (cr : Nat → Bool) (s : St) (i : Nat) (h : Inv who cr s) :
+    Inv who cr (step true who cr s i) := by
+  have hs := step_shape who cr s i
+  generalize step true who cr s i = s' at hs ⊢
+  cases hs with
+  | stutter => exact h
+  | finish d hpc hk hl hp => exact inv_finish h i d hpc hk hp
+  | acquire hpc hk hl hp => exact inv_acquire h i hpc hk hl hp
+  | gnow d hpc hp =>
+    refine inv_move h i (.got d) ?_ ?_ (by simp [Inside]) (by simp) (fun d' e => by cases e; exact hp) (by simp) (by simp) ?_
+    · rcases hpc with ⟨e, _⟩ | e <;> simp [e, Inside]
+    · rcases hpc with ⟨e, _⟩ | e <;> simp [e]
+    · intro _
+      rcases hpc with ⟨_, e⟩ | e
+      · exact e
+      · exact h.kindG i (.inl e)
+  | gpark hpc hk hp =>
+    exact inv_move h i .gwait (by simp [hpc, Inside]) (by simp [hpc]) (by simp [Inside]) (by simp) (by simp) (by simp)
+      (by simp) (fun _ => hk)
+  | build hpc hc => exact inv_build h i hpc hc
+  | fail hpc hc => exact inv_fail h i hpc hc
+  | publish d hpc => exact inv_publish h i d hpc
+
+theorem inv_run (who : Nat → Caller) (cr : Nat → Bool) (s : St) (is : List Nat) (h : Inv who cr s) :
+    Inv who cr (run true who cr s is) := by
   induction is generalizing s with
   | nil => exact h
-  | cons i is ih => exact ih _ (phase_step kind s i h)
+  | cons i is ih => exact ih _ (inv_step who cr s i h)
 
-theorem run_append (lk : Bool) (kind : Nat → Kind) (s : St) (a b : List Nat) :
-    run lk kind s (a ++ b) = run lk kind (run lk kind s a) b := by
+theorem run_append (lk : Bool) (who : Nat → Caller) (cr : Nat → Bool) (s : St) (a b : List Nat) :
+    run lk who cr s (a ++ b) = run lk who cr (run lk who cr s a) b := by
   induction a generalizing s with
   | nil => rfl
   | cons i a ih => exact ih _
 
 
-/-- a frame consumer is never parked on the get() event (any machine, locked or not) -/
-def KindOk (kind : Nat → Kind) (s : St) : Prop :=
-  ∀ j, kind j = .entry → s.pc j ≠ .gwait ∧ ∀ d, s.pc j ≠ .got d
+/-! ### what a step does to the other callers and to the entries -/
 
-theorem kindOk_init (kind : Nat → Kind) : KindOk kind init := by
-  intro j _; simp [init]
+theorem shape_pc_other {who cr s i s'} (h : Shape who cr s i s') (j : Nat) (hj : j ≠ i) : s'.pc j = s.pc j := by
+  cases h <;> simp [finish, upd_other _ _ _ _ hj]
 
-theorem kindOk_step (lk : Bool) (kind : Nat → Kind) (s : St) (i : Nat) (h : KindOk kind s) :
-    KindOk kind (step lk kind s i) := by
-  intro j hj
-  have hs := h j hj
-  by_cases e : j = i
-  · subst e
-    unfold step
-    cases hp : s.pc j <;> simp only [hj] <;> (try split) <;> (try split) <;> simp_all [finish]
-  · have : (step lk kind s i).pc j = s.pc j := by
-      unfold step
-      cases s.pc i <;> simp only [] <;> (try split) <;> (try split) <;> (try split) <;>
-        simp_all [finish, upd_other]
-    rw [this]; exact hs
+theorem step_pc_other (who : Nat → Caller) (cr : Nat → Bool) (s : St) (i j : Nat) (hj : j ≠ i) :
+    (step true who cr s i).pc j = s.pc j := shape_pc_other (step_shape who cr s i) j hj
 
-theorem kindOk_run (lk : Bool) (kind : Nat → Kind) (s : St) (is : List Nat) (h : KindOk kind s) :
-    KindOk kind (run lk kind s is) := by
+/-- an entry, once published, is never replaced -/
+theorem step_published_mono (who : Nat → Caller) (cr : Nat → Bool) (s : St) (i : Nat) (h : Inv who cr s)
+    (a d : Nat) (ha : s.published a = some d) : (step true who cr s i).published a = some d := by
+  have hs := step_shape who cr s i
+  generalize step true who cr s i = s' at hs ⊢
+  cases hs with
+  | publish d' hpc =>
+    have hl := h.holder i (by rw [hpc]; exact inside_publishing d')
+    have hn := (h.held i hl).2
+    have e : a ≠ (who i).addr := by intro e; rw [e, hn] at ha; cases ha
+    simpa [upd_other _ _ _ _ e] using ha
+  | _ => simpa [finish] using ha
+
+theorem run_published_mono (who : Nat → Caller) (cr : Nat → Bool) (s : St) (is : List Nat) (h : Inv who cr s)
+    (a d : Nat) (ha : s.published a = some d) : (run true who cr s is).published a = some d := by
   induction is generalizing s with
-  | nil => exact h
-  | cons i is ih => exact ih _ (kindOk_step lk kind s i h)
+  | nil => exact ha
+  | cons i is ih => exact ih _ (inv_step who cr s i h) (step_published_mono who cr s i h a d ha)
 
 /-! ### the replay used by the driver is a run of the machine -/
 
-theorem pass_run (lk : Bool) (r : Replay) (h : r.st = run lk parity init r.sched.reverse) :
-    (pass lk r).st = run lk parity init (pass lk r).sched.reverse ∧
-      (pass lk r).frames = r.frames ∧ (pass lk r).gets = r.gets := by
+/-- the replay state is a state of the machine under the schedule it recorded, and callers
+that do not exist yet have not moved -/
+structure RInv (who : Nat → Caller) (cr : Nat → Bool) (r : Replay) : Prop where
+  isRun : r.st = run true who cr init r.sched.reverse
+  fresh : ∀ j, j ∉ callers r → r.st.pc j = .start
+
+theorem RInv.inv {who cr r} (h : RInv who cr r) : Inv who cr r.st := by
+  rw [h.isRun]; exact inv_run who cr init _ (inv_init who cr)
+
+theorem pass_spec (who : Nat → Caller) (cr : Nat → Bool) (r : Replay) (h : RInv who cr r) :
+    RInv who cr (pass true who cr r) ∧ (pass true who cr r).frames = r.frames ∧ (pass true who cr r).gets = r.gets := by
   unfold pass
-  have key : ∀ (l : List Nat) (r0 : Replay), r0.st = run lk parity init r0.sched.reverse →
+  have key : ∀ (l : List Nat) (r0 : Replay), (∀ j ∈ l, j ∈ callers r0) → RInv who cr r0 →
       let r1 := l.foldl (fun r j => if isCreating (r.st.pc j) then r
-          else { r with st := step lk parity r.st j, sched := j :: r.sched }) r0
-      r1.st = run lk parity init r1.sched.reverse ∧ r1.frames = r0.frames ∧ r1.gets = r0.gets := by
+          else { r with st := step true who cr r.st j, sched := j :: r.sched }) r0
+      RInv who cr r1 ∧ r1.frames = r0.frames ∧ r1.gets = r0.gets := by
     intro l
     induction l with
-    | nil => intro r0 h0; exact ⟨h0, rfl, rfl⟩
+    | nil => intro r0 _ h0; exact ⟨h0, rfl, rfl⟩
     | cons j l ih =>
-      intro r0 h0
+      intro r0 hl h0
       simp only [List.foldl_cons]
       by_cases hc : isCreating (r0.st.pc j) = true
-      · simp only [hc, if_true]; exact ih r0 h0
+      · simp only [hc, if_true]; exact ih r0 (fun x hx => hl x (List.mem_cons_of_mem _ hx)) h0
       · simp only [hc]
-        have := ih { r0 with st := step lk parity r0.st j, sched := j :: r0.sched }
-          (by simp [run_append, ← h0, run])
+        have hj : j ∈ callers r0 := hl j (List.mem_cons_self ..)
+        have h1 : RInv who cr { r0 with st := step true who cr r0.st j, sched := j :: r0.sched } := by
+          refine ⟨by simp [run_append, ← h0.isRun, run], fun x hx => ?_⟩
+          have hx' : x ∉ callers r0 := hx
+          have : x ≠ j := fun e => hx' (e ▸ hj)
+          simpa [step_pc_other who cr r0.st j x this] using h0.fresh x hx'
+        have := ih { r0 with st := step true who cr r0.st j, sched := j :: r0.sched }
+          (fun x hx => hl x (List.mem_cons_of_mem _ hx)) h1
         simpa using this
-  exact key _ r h
+  exact key _ r (fun j hj => hj) h
 
-theorem settle_run (lk : Bool) (r : Replay) (h : r.st = run lk parity init r.sched.reverse) :
-    (settle lk r).st = run lk parity init (settle lk r).sched.reverse := by
-  unfold settle
-  have h1 := pass_run lk r h
-  have h2 := pass_run lk _ h1.1
-  exact (pass_run lk _ h2.1).1
+theorem settle_spec (who : Nat → Caller) (cr : Nat → Bool) (fuel : Nat) (r r' : Replay) (h : RInv who cr r)
+    (hs : settle true who cr fuel r = some r') :
+    RInv who cr r' ∧ quiet true who cr r' = true ∧ r'.frames = r.frames ∧ r'.gets = r.gets := by
+  induction fuel generalizing r with
+  | zero =>
+    simp only [settle] at hs
+    split at hs
+    · rename_i hq; cases hs; exact ⟨h, hq, rfl, rfl⟩
+    · cases hs
+  | succ k ih =>
+    simp only [settle] at hs
+    split at hs
+    · rename_i hq; cases hs; exact ⟨h, hq, rfl, rfl⟩
+    · obtain ⟨h1, h2, h3⟩ := pass_spec who cr r h
+      obtain ⟨a, b, c, d⟩ := ih _ h1 hs
+      exact ⟨a, b, by rw [c, h2], by rw [d, h3]⟩
 
-theorem applyEv_run (lk : Bool) (r r' : Replay) (e : Ev)
-    (h : r.st = run lk parity init r.sched.reverse) (he : applyEv lk r e = some r') :
-    r'.st = run lk parity init r'.sched.reverse := by
+theorem mem_callers (r : Replay) (j : Nat) :
+    j ∈ callers r ↔ (j % 2 = 0 ∧ j / 2 < r.frames) ∨ (j % 2 = 1 ∧ j / 2 < r.gets) := by
+  simp only [callers, List.mem_append, List.mem_map, List.mem_range]
+  constructor
+  · rintro (⟨f, hf, rfl⟩ | ⟨g, hg, rfl⟩)
+    · left; omega
+    · right; omega
+  · rintro (⟨h1, h2⟩ | ⟨h1, h2⟩)
+    · left; exact ⟨j / 2, h2, by omega⟩
+    · right; exact ⟨j / 2, h2, by omega⟩
+
+theorem applyEv_spec (who : Nat → Caller) (cr : Nat → Bool) (r r' : Replay) (e : Ev) (h : RInv who cr r)
+    (he : applyEv true who cr r e = some r') :
+    RInv who cr r' ∧ quiet true who cr r' = true ∧
+      r'.frames = r.frames + (frameAddrs [e]).length ∧ r'.gets = r.gets + (getAddrs [e]).length := by
+  have grow : ∀ (f g : Nat), r.frames ≤ f → r.gets ≤ g →
+      RInv who cr { r with frames := f, gets := g } := by
+    intro f g hf hg
+    refine ⟨h.isRun, fun j hj => h.fresh j (fun hm => hj ?_)⟩
+    rw [mem_callers] at hm ⊢
+    rcases hm with ⟨a, b⟩ | ⟨a, b⟩
+    · exact .inl ⟨a, by simp only []; omega⟩
+    · exact .inr ⟨a, by simp only []; omega⟩
   cases e with
-  | feed m => simp only [applyEv, Option.some.injEq] at he; subst he; exact settle_run lk _ h
-  | get => simp only [applyEv, Option.some.injEq] at he; subst he; exact settle_run lk _ h
+  | feed a m =>
+    simp only [applyEv] at he
+    obtain ⟨x, y, z, w⟩ := settle_spec who cr _ _ _ (grow (r.frames + m) r.gets (by omega) (Nat.le_refl _)) he
+    exact ⟨x, y, by simp [frameAddrs, z], by simp [getAddrs, w]⟩
+  | get a =>
+    simp only [applyEv] at he
+    obtain ⟨x, y, z, w⟩ := settle_spec who cr _ _ _ (grow r.frames (r.gets + 1) (Nat.le_refl _) (by omega)) he
+    exact ⟨x, y, by simp [frameAddrs, z], by simp [getAddrs, w]⟩
   | release =>
     simp only [applyEv] at he
     split at he
-    · simp only [Option.some.injEq] at he; subst he
-      exact settle_run lk _ (by simp [run_append, ← h, run])
+    · rename_i j hj
+      have hjm : j ∈ callers r := List.mem_of_find?_eq_some hj
+      have h1 : RInv who cr { r with st := step true who cr r.st j, sched := j :: r.sched } := by
+        refine ⟨by simp [run_append, ← h.isRun, run], fun x hx => ?_⟩
+        have hx' : x ∉ callers r := hx
+        have : x ≠ j := fun e => hx' (e ▸ hjm)
+        simpa [step_pc_other who cr r.st j x this] using h.fresh x hx'
+      obtain ⟨x, y, z, w⟩ := settle_spec who cr _ _ _ h1 he
+      exact ⟨x, y, by simp [frameAddrs, z], by simp [getAddrs, w]⟩
     · cases he
 
-/-! ### a state in one of the four phases shows only what the statement allows -/
+/-- the events applied one after the other; `none` = not accepted -/
+def runEvs (who : Nat → Caller) (cr : Nat → Bool) : Replay → List Ev → Option Replay
+  | r, [] => some r
+  | r, e :: es =>
+    match applyEv true who cr r e with
+    | some r' => runEvs who cr r' es
+    | none => none
 
-theorem nodup_half (l : List Nat) (hn : l.Nodup) (he : ∀ a ∈ l, a % 2 = 0) :
-    (l.map (· / 2)).Nodup := by
+theorem frameAddrs_cons (e : Ev) (es : List Ev) : frameAddrs (e :: es) = frameAddrs [e] ++ frameAddrs es := by
+  cases e <;> simp [frameAddrs]
+
+theorem getAddrs_cons (e : Ev) (es : List Ev) : getAddrs (e :: es) = getAddrs [e] ++ getAddrs es := by
+  cases e <;> simp [getAddrs]
+
+theorem runEvs_spec (who : Nat → Caller) (cr : Nat → Bool) (evs : List Ev) (r r' : Replay) (h : RInv who cr r)
+    (hq : quiet true who cr r = true) (he : runEvs who cr r evs = some r') :
+    RInv who cr r' ∧ quiet true who cr r' = true ∧
+      r'.frames = r.frames + (frameAddrs evs).length ∧ r'.gets = r.gets + (getAddrs evs).length := by
+  induction evs generalizing r with
+  | nil => simp only [runEvs, Option.some.injEq] at he; subst he; exact ⟨h, hq, by simp [frameAddrs], by simp [getAddrs]⟩
+  | cons e es ih =>
+    simp only [runEvs] at he
+    split at he
+    · rename_i r1 h1
+      obtain ⟨a, b, c, d⟩ := applyEv_spec who cr r r1 e h h1
+      obtain ⟨a', b', c', d'⟩ := ih r1 a b he
+      refine ⟨a', b', ?_, ?_⟩
+      · rw [c', c, frameAddrs_cons e es, List.length_append]; omega
+      · rw [d', d, getAddrs_cons e es, List.length_append]; omega
+    · cases he
+
+theorem rinv_replay0 (who : Nat → Caller) (cr : Nat → Bool) : RInv who cr replay0 :=
+  ⟨rfl, fun _ _ => rfl⟩
+
+theorem quiet_replay0 (who : Nat → Caller) (cr : Nat → Bool) : quiet true who cr replay0 = true := by
+  simp [quiet, callers, replay0]
+
+
+/-! ### what a quiescent replay state shows -/
+
+theorem nodup_half (l : List Nat) (hn : l.Nodup) (he : ∀ a ∈ l, a % 2 = 0) : (l.map (· / 2)).Nodup := by
   induction l with
   | nil => simp
   | cons a l ih =>
@@ -290,62 +776,323 @@ theorem nodup_reverse' {α} (l : List α) (h : l.Nodup) : l.reverse.Nodup := by
   simp only [List.Nodup, List.pairwise_reverse] at *
   exact h.imp (fun h => Ne.symm h)
 
-theorem getRes_quiet {p : PC} (h : Quiet p) : getRes p = none := by
-  rcases h with e | e <;> simp [e, getRes]
+/-- if `f` separates the elements of a list and `g` separates whatever `f` does, `g` separates them too -/
+theorem nodup_map_of_nodup_map {α β γ} (f : α → β) (g : α → γ) (l : List α) (hf : (l.map f).Nodup)
+    (hfg : ∀ x ∈ l, ∀ y ∈ l, g x = g y → f x = f y) : (l.map g).Nodup := by
+  induction l with
+  | nil => simp
+  | cons a l ih =>
+    simp only [List.map_cons, List.nodup_cons, List.mem_map] at hf ⊢
+    refine ⟨?_, ih hf.2 (fun x hx y hy => hfg x (List.mem_cons_of_mem _ hx) y (List.mem_cons_of_mem _ hy))⟩
+    rintro ⟨b, hb, e⟩
+    exact hf.1 ⟨b, hb, hfg b (List.mem_cons_of_mem _ hb) a (List.mem_cons_self ..) e⟩
 
-theorem getRes_settled {p : PC} (h : Settled p) : getRes p = none ∨ getRes p = some 0 := by
-  rcases h with e | e | e | e <;> simp [e, getRes]
+theorem whoPar_even (fa ga : List Nat) (j : Nat) (h : j % 2 = 0) : whoPar fa ga j = ⟨.entry, fa.getD (j / 2) 0⟩ := by
+  simp [whoPar, h]
 
-/-- before anything is published nothing is visible but the pending creation -/
-theorem snapOk_early (r : Replay) (hc : r.st.created ≤ 1) (hs : r.st.setups = r.st.created)
-    (hp : r.st.published = none) (hd : r.st.dispatched = []) (hh : r.st.handled = [])
-    (hq : ∀ j, getRes (r.st.pc j) = none) : C10.snapOk (observe r) = true := by
-  have hg : ((List.range r.gets).map fun g => getRes (r.st.pc (2 * g + 1))).all (· == none) = true := by
-    simp [List.all_map, List.all_eq_true, hq]
-  have hg' : ((List.range r.gets).map fun g => getRes (r.st.pc (2 * g + 1))).all
-      (fun g => g == none || g == some 0) = true := by
-    simp [List.all_map, List.all_eq_true, hq]
-  simp only [C10.snapOk, observe, hp, hd, hh, hg, hg', hs]
-  simp
-  omega
+theorem whoPar_odd (fa ga : List Nat) (j : Nat) (h : j % 2 = 1) : whoPar fa ga j = ⟨.get, ga.getD (j / 2) 0⟩ := by
+  simp [whoPar, h]
 
-theorem phase_snapOk (r : Replay) (h : Phase parity r.st) : C10.snapOk (observe r) = true := by
-  cases h with
-  | idle hl hc hs hp hd hh hpc =>
-    exact snapOk_early r (by omega) (by omega) hp hd hh (fun j => getRes_quiet (hpc j))
-  | creating h' hl hc hs hp hd hh hk hh' hpc =>
-    refine snapOk_early r (by omega) (by omega) hp hd hh (fun j => ?_)
-    by_cases e : j = h'
-    · subst e; simp [hh', getRes]
-    · exact getRes_quiet (hpc j e)
-  | publishing h' hl hc hs hp hd hh hk hh' hpc =>
-    refine snapOk_early r (by omega) (by omega) hp hd hh (fun j => ?_)
-    by_cases e : j = h'
-    · subst e; simp [hh', getRes]
-    · exact getRes_quiet (hpc j e)
-  | published hl hc hs hp hd hpc hh hn hdone =>
-    have hgets : ((List.range r.gets).map fun g => getRes (r.st.pc (2 * g + 1))).all
-        (fun g => g == none || g == some 0) = true := by
-      simp only [List.all_map, List.all_eq_true]
-      intro g _
-      rcases getRes_settled (hpc (2 * g + 1)) with e | e <;> simp [e]
-    have hall : (r.st.handled.reverse.map fun p => (p.1 / 2, p.2)).all (fun p => p.2 == 0) = true := by
-      simp only [List.all_map, List.all_eq_true, List.mem_reverse]
-      intro p hp'; simp [(hh p hp').1]
-    have hnd : ((r.st.handled.reverse.map fun p => (p.1 / 2, p.2)).map (·.1)).Nodup := by
-      have : ((r.st.handled.reverse.map fun p => (p.1 / 2, p.2)).map (·.1))
-          = ((r.st.handled.map (·.1)).map (· / 2)).reverse := by
-        simp [List.map_reverse, Function.comp_def]
-      rw [this]
-      apply nodup_reverse'
-      apply nodup_half _ hn
-      intro a ha
-      obtain ⟨p, hp1, hp2⟩ := List.mem_map.mp ha
-      have := (hh p hp1).2.2
-      simp only [parity] at this
-      split at this
-      · omega
-      · cases this
-    simp only [C10.snapOk, observe, hc, hs, hp, hd, hgets, hall, hnd]
-    simp
+theorem entry_even (fa ga : List Nat) (j : Nat) (h : (whoPar fa ga j).kind = .entry) : j % 2 = 0 := by
+  by_cases e : j % 2 = 0
+  · exact e
+  · rw [whoPar_odd fa ga j (by omega)] at h; cases h
+
+/-- a quiescent replay state has nobody in `publishing` -/
+theorem quiet_no_publishing {who cr r} (h : RInv who cr r) (hq : quiet true who cr r = true) (k d : Nat) :
+    r.st.pc k ≠ .publishing d := by
+  intro hk
+  by_cases hm : k ∈ callers r
+  · simp only [quiet, List.all_eq_true, Bool.or_eq_true, decide_eq_true_eq] at hq
+    rcases hq k hm with c | c
+    · rw [hk] at c; cases c
+    · simp [step, hk] at c
+  · rw [h.fresh k hm] at hk; cases hk
+
+/-- **every snapshot the replay shows satisfies the statement's per-instant predicate** -/
+theorem quiet_snapOk (fa ga : List Nat) (cr : Nat → Bool) (r : Replay) (h : RInv (whoPar fa ga) cr r)
+    (hq : quiet true (whoPar fa ga) cr r = true) : C10.snapOk fa ga (observe r) = true := by
+  have inv := h.inv
+  have nopub := quiet_no_publishing h hq
+  have hfilter : (r.st.dispatched.reverse.filter fun p => r.st.published p.1 == some p.2) = r.st.dispatched.reverse := by
+    apply List.filter_eq_self.mpr
+    intro p hp
+    simp [inv.dispOk p (List.mem_reverse.mp hp)]
+  have inDisp : ∀ a d, r.st.published a = some d →
+      (r.st.dispatched.reverse.filter fun p => r.st.published p.1 == some p.2).contains (a, d) = true := by
+    intro a d ha
+    rw [hfilter]
+    simp [inv.pubDisp a d ha]
+  simp only [C10.snapOk, Bool.and_eq_true, decide_eq_true_eq]
+  refine ⟨⟨⟨⟨⟨⟨⟨?_, ?_⟩, ?_⟩, ?_⟩, ?_⟩, ?_⟩, ?_⟩, ?_⟩
+  · show (r.st.dispatched.reverse.map (·.1)).Nodup
+    rw [List.map_reverse]; exact nodup_reverse' _ inv.dispNodup
+  · show (r.st.dispatched.reverse.map (·.2)).Nodup
+    rw [List.map_reverse]; apply nodup_reverse'
+    refine nodup_map_of_nodup_map (fun p : Nat × Nat => p.1) (fun p : Nat × Nat => p.2) r.st.dispatched inv.dispNodup (fun x hx y hy e => ?_)
+    exact inv.inj x.1 y.1 x.2 (inv.dispOk x hx) (e ▸ inv.dispOk y hy)
+  · simp [observe, hfilter]
+  · simp [observe, inv.cnt0 nopub]
+  · simp [observe, inv.setupsTot]
+  · simp only [List.all_eq_true, List.mem_range]
+    intro g hg
+    have hlen : (observe r).gets.length = r.gets := by simp [observe]
+    have hget : (observe r).gets.getD g none = getRes (r.st.pc (2 * g + 1)) := by
+      simp only [observe, List.getD_eq_getElem?_getD]
+      rw [List.getElem?_map, List.getElem?_range (by omega)]; rfl
+    rw [hget]
+    cases hp : r.st.pc (2 * g + 1) <;> simp only [getRes]
+    rename_i d
+    have := inv.holds (2 * g + 1) d (.inr hp)
+    rw [whoPar_odd fa ga _ (by omega)] at this
+    have e : (2 * g + 1) / 2 = g := by omega
+    rw [e] at this
+    exact inDisp _ _ this
+  · simp only [List.all_eq_true]
+    intro p hp
+    simp only [observe, List.mem_map, List.mem_reverse] at hp
+    obtain ⟨q, hq', rfl⟩ := hp
+    obtain ⟨h1, h2⟩ := inv.handledOk q hq'
+    have hev := entry_even fa ga q.1 h2
+    have := inv.holds q.1 q.2 (.inl h1)
+    rw [whoPar_even fa ga _ hev] at this
+    exact inDisp _ _ this
+  · show ((r.st.handled.reverse.map fun p => (p.1 / 2, p.2)).map (·.1)).Nodup
+    have : ((r.st.handled.reverse.map fun p => (p.1 / 2, p.2)).map (·.1))
+        = ((r.st.handled.map (·.1)).map (· / 2)).reverse := by
+      simp [List.map_reverse, Function.comp_def]
+    rw [this]
+    apply nodup_reverse'
+    apply nodup_half _ inv.handledNodup
+    intro a ha
+    obtain ⟨p, hp1, hp2⟩ := List.mem_map.mp ha
+    exact hp2 ▸ entry_even fa ga p.1 (inv.handledOk p hp1).2
+
+
+/-! ### what the enabled moves do (for building schedules) -/
+
+theorem step_creating_ok (who : Nat → Caller) (cr : Nat → Bool) (s : St) (i : Nat) (hpc : s.pc i = .creating)
+    (hc : cr (who i).addr = true) :
+    (step true who cr s i).pc i = .publishing s.created ∧ (step true who cr s i).lock = s.lock := by
+  simp [step, hpc, hc]
+
+theorem step_creating_fail (who : Nat → Caller) (cr : Nat → Bool) (s : St) (i : Nat) (hpc : s.pc i = .creating)
+    (hc : cr (who i).addr = false) :
+    (step true who cr s i).pc i = .failed ∧ (step true who cr s i).lock = none := by
+  simp [step, hpc, hc]
+
+theorem step_publishing (who : Nat → Caller) (cr : Nat → Bool) (s : St) (i d : Nat) (hpc : s.pc i = .publishing d) :
+    (step true who cr s i).pc i = .done d ∧ (step true who cr s i).lock = none := by
+  simp [step, hpc]
+
+theorem step_start_entry (who : Nat → Caller) (cr : Nat → Bool) (s : St) (i : Nat) (hpc : s.pc i = .start)
+    (hk : (who i).kind = .entry) (hl : s.lock = none) :
+    (∃ d, (step true who cr s i).pc i = .done d) ∨
+      ((step true who cr s i).pc i = .creating ∧ (step true who cr s i).lock = some i) := by
+  unfold step
+  simp only [hpc, hk, hl]
+  cases s.published (who i).addr with
+  | some d => left; exact ⟨d, by simp [finish]⟩
+  | none => right; simp
+
+/-- whoever holds the lock (other than `j`) can always be run out of it in at most two moves -/
+theorem free_lock (who : Nat → Caller) (cr : Nat → Bool) (s : St) (h : Inv who cr s) (j : Nat) :
+    ∃ m : List Nat, m.length ≤ 2 ∧ ((run true who cr s m).lock = none ∨ (run true who cr s m).lock = some j) ∧
+      (run true who cr s m).pc j = s.pc j := by
+  cases hl : s.lock with
+  | none => exact ⟨[], by simp, .inl hl, rfl⟩
+  | some k =>
+    by_cases e : k = j
+    · subst e; exact ⟨[], by simp, .inr hl, rfl⟩
+    · have hj : j ≠ k := fun e' => e e'.symm
+      rcases (h.held k hl).1 with c | ⟨d, c⟩
+      · cases hc : cr (who k).addr with
+        | true =>
+          obtain ⟨a1, _⟩ := step_creating_ok who cr s k c hc
+          obtain ⟨b1, b2⟩ := step_publishing who cr _ k _ a1
+          refine ⟨[k, k], by simp, .inl (by simpa [run] using b2), ?_⟩
+          simp [run, step_pc_other who cr _ k j hj]
+        | false =>
+          obtain ⟨_, a2⟩ := step_creating_fail who cr s k c hc
+          exact ⟨[k], by simp, .inl (by simpa [run] using a2), by simp [run, step_pc_other who cr _ k j hj]⟩
+      · obtain ⟨_, b2⟩ := step_publishing who cr s k d c
+        exact ⟨[k], by simp, .inl (by simpa [run] using b2), by simp [run, step_pc_other who cr _ k j hj]⟩
+
+/-- with the lock free or its own, a frame consumer finishes within three moves -/
+theorem finish_own (who : Nat → Caller) (cr : Nat → Bool) (s : St) (h : Inv who cr s) (j : Nat)
+    (hk : (who j).kind = .entry) (hl : s.lock = none ∨ s.lock = some j) :
+    ∃ m : List Nat, m.length ≤ 3 ∧
+      ((∃ d, (run true who cr s m).pc j = .done d) ∨ (run true who cr s m).pc j = .failed) := by
+  -- from `creating` (own lock): two moves or one
+  have from_creating : ∀ s : St, s.pc j = .creating → ∃ m : List Nat, m.length ≤ 2 ∧
+      ((∃ d, (run true who cr s m).pc j = .done d) ∨ (run true who cr s m).pc j = .failed) := by
+    intro s c
+    cases hc : cr (who j).addr with
+    | true =>
+      obtain ⟨a1, _⟩ := step_creating_ok who cr s j c hc
+      obtain ⟨b1, _⟩ := step_publishing who cr _ j _ a1
+      exact ⟨[j, j], by simp, .inl ⟨_, by simpa [run] using b1⟩⟩
+    | false =>
+      obtain ⟨a1, _⟩ := step_creating_fail who cr s j c hc
+      exact ⟨[j], by simp, .inr (by simpa [run] using a1)⟩
+  cases hp : s.pc j with
+  | start =>
+    have hl' : s.lock = none := by
+      rcases hl with hl | hl
+      · exact hl
+      · have := (h.held j hl).1; rw [hp] at this; exact absurd this inside_start
+    rcases step_start_entry who cr s j hp hk hl' with ⟨d, hd⟩ | ⟨hc, _⟩
+    · exact ⟨[j], by simp, .inl ⟨d, by simpa [run] using hd⟩⟩
+    · obtain ⟨m, hm1, hm2⟩ := from_creating _ hc
+      exact ⟨j :: m, by simp; omega, by simpa [run] using hm2⟩
+  | creating =>
+    obtain ⟨m, hm1, hm2⟩ := from_creating s hp
+    exact ⟨m, by omega, hm2⟩
+  | publishing d =>
+    obtain ⟨b1, _⟩ := step_publishing who cr s j d hp
+    exact ⟨[j], by simp, .inl ⟨d, by simpa [run] using b1⟩⟩
+  | done d => exact ⟨[], by simp, .inl ⟨d, by simpa [run] using hp⟩⟩
+  | failed => exact ⟨[], by simp, .inr (by simpa [run] using hp)⟩
+  | gwait => have := h.kindG j (.inl hp); rw [hk] at this; cases this
+  | got d => have := h.kindG j (.inr ⟨d, hp⟩); rw [hk] at this; cases this
+
+theorem step_start_moves (who : Nat → Caller) (cr : Nat → Bool) (s : St) (i : Nat) (hpc : s.pc i = .start)
+    (h : (who i).kind = .get ∨ s.lock = none) : (step true who cr s i).pc i ≠ .start := by
+  unfold step
+  simp only [hpc]
+  cases hk : (who i).kind with
+  | get => cases s.published (who i).addr <;> simp
+  | entry =>
+    have hl : s.lock = none := by
+      rcases h with h | h
+      · rw [hk] at h; cases h
+      · exact h
+    cases hp : s.published (who i).addr <;> simp [hl, finish]
+
+theorem step_gwait_moves (who : Nat → Caller) (cr : Nat → Bool) (s : St) (i d : Nat) (hpc : s.pc i = .gwait)
+    (hp : s.published (who i).addr = some d) : (step true who cr s i).pc i ≠ .gwait := by
+  unfold step
+  simp [hpc, hp]
+
+/-- **a complete run ends well**: a quiescent replay state in which every frame has been fed,
+every get() made and no class loading is pending shows every frame of an address with a
+device class handled (by that address's entry, `quiet_snapOk`), every frame of an address
+without one dropped, and every get() for an address that has an entry returned -/
+theorem quiet_finalOk (fa ga : List Nat) (cr : Nat → Bool) (r : Replay) (h : RInv (whoPar fa ga) cr r)
+    (hq : quiet true (whoPar fa ga) cr r = true) (hf : r.frames = fa.length) (hg : r.gets = ga.length)
+    (hheld : (observe r).held = 0) : C10.finalOk fa ga cr (observe r) = true := by
+  have inv := h.inv
+  have nopub := quiet_no_publishing h hq
+  have hsnap := quiet_snapOk fa ga cr r h hq
+  have hfilter : (r.st.dispatched.reverse.filter fun p => r.st.published p.1 == some p.2) = r.st.dispatched.reverse := by
+    apply List.filter_eq_self.mpr
+    intro p hp
+    simp [inv.dispOk p (List.mem_reverse.mp hp)]
+  have nocreating : ∀ j ∈ callers r, r.st.pc j ≠ .creating := by
+    intro j hj hc
+    have : j ∈ (callers r).filter fun j => isCreating (r.st.pc j) := List.mem_filter.mpr ⟨hj, by simp [hc, isCreating]⟩
+    have hl : ((callers r).filter fun j => isCreating (r.st.pc j)).length = 0 := hheld
+    rw [List.length_eq_zero_iff.mp hl] at this; cases this
+  have hlock : r.st.lock = none := by
+    cases hl : r.st.lock with
+    | none => rfl
+    | some k =>
+      rcases (inv.held k hl).1 with c | ⟨d, c⟩
+      · by_cases hm : k ∈ callers r
+        · exact absurd c (nocreating k hm)
+        · rw [h.fresh k hm] at c; cases c
+      · exact absurd c (nopub k d)
+  have still : ∀ j ∈ callers r, (step true (whoPar fa ga) cr r.st j).pc j = r.st.pc j := by
+    intro j hj
+    simp only [quiet, List.all_eq_true, Bool.or_eq_true, decide_eq_true_eq] at hq
+    rcases hq j hj with c | c
+    · exact absurd (by cases hp : r.st.pc j <;> simp_all [isCreating]) (nocreating j hj)
+    · exact c
+  simp only [C10.finalOk, Bool.and_eq_true, hsnap, true_and]
+  refine ⟨⟨⟨?_, ?_⟩, ?_⟩, ?_⟩
+  · simp [hheld]
+  · -- frames
+    simp only [List.all_eq_true, List.mem_range]
+    intro f hfl
+    have hj : 2 * f ∈ callers r := (mem_callers r _).mpr (.inl ⟨by omega, by omega⟩)
+    have hw : whoPar fa ga (2 * f) = ⟨.entry, fa.getD f 0⟩ := by
+      rw [whoPar_even fa ga _ (by omega)]; congr 2; omega
+    have hstill := still _ hj
+    have obsmem : ∀ d, (2 * f, d) ∈ r.st.handled → f ∈ (observe r).handled.map (·.1) := by
+      intro d hd
+      simp only [observe, List.map_map, List.mem_map, List.mem_reverse]
+      exact ⟨(2 * f, d), hd, by simp⟩
+    have obsnot : (∀ d, r.st.pc (2 * f) ≠ .done d) → f ∉ (observe r).handled.map (·.1) := by
+      intro hnd hm
+      simp only [observe, List.map_map, List.mem_map, List.mem_reverse] at hm
+      obtain ⟨q, hq1, hq2⟩ := hm
+      obtain ⟨a1, a2⟩ := inv.handledOk q hq1
+      have hev := entry_even fa ga q.1 a2
+      have : q.1 = 2 * f := by simp at hq2; omega
+      rw [this] at a1; exact hnd _ a1
+    cases hp : r.st.pc (2 * f) with
+    | start =>
+      exact absurd (hp ▸ hstill) (step_start_moves _ cr r.st _ hp (.inr hlock))
+    | creating => exact absurd hp (nocreating _ hj)
+    | publishing d => exact absurd hp (nopub _ d)
+    | done d =>
+      have h1 := obsmem d (inv.doneIn _ d hp)
+      have h2 := inv.holds _ d (.inl hp)
+      rw [hw] at h2
+      have h3 := (inv.ids _ d h2).2.2.1
+      rw [List.contains_iff_mem.mpr h1, h3]; rfl
+    | failed =>
+      have h1 := inv.failedOk _ hp
+      rw [hw] at h1
+      have h2 := obsnot (by intro d; rw [hp]; simp)
+      have hc : ((observe r).handled.map (·.1)).contains f = false := by
+        cases hcc : ((observe r).handled.map (·.1)).contains f with
+        | false => rfl
+        | true => exact absurd (List.contains_iff_mem.mp hcc) h2
+      rw [hc, h1]; rfl
+    | gwait => have := inv.kindG _ (.inl hp); rw [hw] at this; cases this
+    | got d => have := inv.kindG _ (.inr ⟨d, hp⟩); rw [hw] at this; cases this
+  · simp [observe, hg]
+  · -- gets
+    simp only [List.all_eq_true, List.mem_range]
+    intro g hgl
+    have hj : 2 * g + 1 ∈ callers r := (mem_callers r _).mpr (.inr ⟨by omega, by omega⟩)
+    have hw : whoPar fa ga (2 * g + 1) = ⟨.get, ga.getD g 0⟩ := by
+      rw [whoPar_odd fa ga _ (by omega)]; congr 2; omega
+    have hstill := still _ hj
+    have hget : (observe r).gets.getD g none = getRes (r.st.pc (2 * g + 1)) := by
+      simp only [observe, List.getD_eq_getElem?_getD]
+      rw [List.getElem?_map, List.getElem?_range (by omega)]; rfl
+    have pubfst : ∀ a, a ∈ (observe r).published.map (·.1) ↔ ∃ d, r.st.published a = some d := by
+      intro a
+      simp only [observe, hfilter, List.mem_map, List.mem_reverse]
+      constructor
+      · rintro ⟨p, hp1, rfl⟩; exact ⟨p.2, inv.dispOk p hp1⟩
+      · rintro ⟨d, hd⟩; exact ⟨(a, d), inv.pubDisp a d hd, rfl⟩
+    rw [hget]
+    cases hp : r.st.pc (2 * g + 1) with
+    | start =>
+      exact absurd (hp ▸ hstill) (step_start_moves _ cr r.st _ hp (.inl (by rw [hw])))
+    | gwait =>
+      have hnone : r.st.published (ga.getD g 0) = none := by
+        cases hpa : r.st.published (ga.getD g 0) with
+        | none => rfl
+        | some d => exact absurd (hp ▸ hstill) (step_gwait_moves _ cr r.st _ d hp (by rw [hw]; exact hpa))
+      have : ga.getD g 0 ∉ (observe r).published.map (·.1) := by
+        rw [pubfst]; rintro ⟨d, hd⟩; rw [hnone] at hd; cases hd
+      have hc : ((observe r).published.map (·.1)).contains (ga.getD g 0) = false := by
+        cases hcc : ((observe r).published.map (·.1)).contains (ga.getD g 0) with
+        | false => rfl
+        | true => exact absurd (List.contains_iff_mem.mp hcc) this
+      rw [hc]; rfl
+    | got d =>
+      have h2 := inv.holds _ d (.inr hp)
+      rw [hw] at h2
+      have : ga.getD g 0 ∈ (observe r).published.map (·.1) := (pubfst _).mpr ⟨d, h2⟩
+      rw [List.contains_iff_mem.mpr this]; rfl
+    | creating => have := inv.kindE _ (.inl (.inl hp)); rw [hw] at this; cases this
+    | publishing d => have := inv.kindE _ (.inl (.inr ⟨d, hp⟩)); rw [hw] at this; cases this
+    | done d => have := inv.kindE _ (.inr (.inl ⟨d, hp⟩)); rw [hw] at this; cases this
+    | failed => have := inv.kindE _ (.inr (.inr hp)); rw [hw] at this; cases this
+
 end PlumVerif.Entry
